@@ -386,6 +386,12 @@ func checkC06(ctx *Ctx) *Result {
 	// Config() omits what the request path ignores: the normal form drops
 	// `Authorization` next to `*` with credentials because the request path
 	// answers `*,authorization` only without credentials
+	// "a zero-value middleware reconfigured with &c answers like one built from
+	// c": whatever was called on it while it was a passthrough, its debug mode is off
+	r.share(checkC09(ctx), map[string]string{
+		"R9.1": "invariant debug ⇒ configuration pointer ≠ nil is preserved by every path of every writer (SetDebug on a passthrough middleware leaves debug off)",
+		"R9.2": "documented transitions of creation, SetDebug, Reconfigure(nil / non-nil / invalid)",
+	}, nil)
 	r.share(checkC16(ctx), map[string]string{"R16.2": "successful debug-off preflights carry only constants and request-supplied tokens; `*,authorization` only under asterisk ∧ allowAuthorization ∧ ¬credentialed — the case Config() keeps `Authorization` for"}, nil)
 	return r
 }
